@@ -314,6 +314,8 @@ Definition render_ghost_line (g : ghost_data) (c : ictx) : res (list tok) :=
   | GDestr _ => Panic "16"
   | GMember m =>
       if is_intoish (c_kind c) then
+        (* the assignment-style body a bare #[parent] forces (finding F-17e, repaired in /repo): `obj.<path>.<member> = value;` *)
+        if c_post_init c then Ok ([TIdent "obj"; dot] ++ ch ++ [member_tok m; P1 "="] ++ right ++ [semi]) else
         match m with
         | MNamed ident => Ok ([TIdent ident; P1 ":"] ++ right ++ [comma])
         | MIndex _ => Ok (right ++ [comma])
@@ -863,9 +865,13 @@ Definition print_where_all (own : list (list tok)) (w : option where_attr) : lis
   | _, Some a => TIdent "where" :: join_preds own ++ [comma] ++ join_preds (wa_preds a)
   end.
 
+Definition declarable_lts (l : list string) : list string :=
+  filter (fun x => negb (String.eqb x "static") && negb (String.eqb x "_")) l.
+
 Definition trait_env (t : tview) (c : ictx) : env :=
   let these_lts := flat_map (fun g => if gp_is_lt g then [gp_name g] else []) (tv_generics t) in
-  let those_lts := angle_lts (tp_generics (c_ty c)) in
+  (* 'static and '_ are not lifetime parameters: they are neither declared nor bound (finding F-11d, repaired in /repo) *)
+  let those_lts := declarable_lts (angle_lts (tp_generics (c_ty c))) in
   let ref_lts := if is_ref (c_kind c) then (if is_from (c_kind c) then these_lts else those_lts) else [] in
   let gens1 := add_missing_lts (tv_generics t) those_lts in
   let gens2 := match ref_lts with
@@ -894,7 +900,8 @@ Definition opt_toks (o : option (list tok)) : list tok := match o with Some x =>
 (* quote_trait *)
 Definition quote_trait (t : tview) (c0 : ictx) : res (list tok) :=
   let pre_init := struct_pre_init c0 in
-  post_init <- struct_post_init (tv_data t) c0 ;;
+  (* `return expr` replaces the whole body: no post-init statements either (finding F-08b / F-17b, repaired in /repo) *)
+  post_init <- (if is_some (tc_qret (c_core c0)) then Ok None else struct_post_init (tv_data t) c0) ;;
   let c := {| c_kind := c_kind c0; c_fallible := c_fallible c0; c_core := c_core c0; c_hint := c_hint c0;
               c_impl_type := c_impl_type c0; c_dst := c_dst c0; c_src := c_src c0;
               c_post_init := is_some post_init; c_named := c_named c0 |} in
